@@ -99,11 +99,12 @@ def send_events(r, n: int) -> List[Dict[str, Any]]:
     return evs
 
 
-def framing_cfg(payload, maxmsgs, maxlen, eof_raises=True, invs=(), props=()):
+def framing_cfg(payload, maxmsgs, maxlen, eof_raises=True, invs=(), props=(), read='byte'):
     return tlc.cfg_text(specification='Spec',
                         constants={'Payload': tlc.tla_set(payload),
                                    'MaxMsgs': str(maxmsgs), 'MaxLen': str(maxlen),
-                                   'EofRaises': 'TRUE' if eof_raises else 'FALSE'},
+                                   'EofRaises': 'TRUE' if eof_raises else 'FALSE',
+                                   'ReadImpl': f'"{read}"'},
                         invariants=invs, properties=props)
 
 
@@ -140,6 +141,11 @@ def run(pid: str, tier: str) -> int:
     design_check(chk, 'Framing', framing_cfg([97], 1, 1, False, [], PROPS),
                  'Framing regression (pinned reader spins at end-of-stream)',
                  constants='EofRaises=FALSE', expect_violation='Terminates', workers=2)
+    # regression configuration: a reader that takes blocks and splits each block on
+    # its own glues two messages when a block ends between CR and LF
+    design_check(chk, 'Framing', framing_cfg([97], 2, 1, True, ['ReceivedIsPrefix'], [], read='block'),
+                 'Framing regression (block reader without carry-over of the CR)',
+                 constants='ReadImpl=block', expect_violation='ReceivedIsPrefix', workers=2)
     # ---- spec -> code: every scenario TLC reaches is run on the real reader
     jobs: List[tuple] = []
     for payload, mm, ml in configs:
